@@ -1,5 +1,5 @@
 """Registry: which scenario families / model-checking instances decide which property."""
-import json
+import json, os
 import engine, tlc
 from multiprocessing import get_context
 
@@ -196,6 +196,51 @@ def trace_job(rep, known):
                 else: rep.violations.append(('C13.trace', 'TLC rejects the recorded trace: ' + v[:300], rec, None))
 
 
+def gen_job(rep, known):
+    """Direction B on arbitrary workloads: traces of the generic cache protocol (spec/Cache.tla) recorded from a random driver
+    over the whole public API and -- thorough tier -- from the repository's own tests and examples, validated by TLC
+    (spec/TraceCache.tla)."""
+    import gentrace, gendriver, glob
+    mc_job(rep, 'MC_Cache', 'MC_Cache_ideal.cfg', workers=2)
+    mc_job(rep, 'MC_Cache', 'MC_Cache_keep.cfg', workers=2, expect_violation='CacheCurrent')
+    n = 1500 if rep.tier == 'thorough' else 160
+    seeds = [rep.seed * 100000 + i for i in range(n)]
+    with get_context("fork").Pool(16) as pool:
+        traces = pool.map(gendriver.record_one, seeds, chunksize=4)
+    bad = [t for t in traces if t.get('error')]
+    if bad: raise RuntimeError('generic driver failed: %s' % bad[0]['error'])
+    work = [('driver', t) for t in traces]
+    if rep.tier == 'thorough':
+        tr, tail = gentrace.record_pytest([os.path.join(os.environ.get('ROCKIT_REPO', '/repo'), 'tests')])
+        if len(tr) < 50: raise RuntimeError('recording the repository tests produced %d traces: %s' % (len(tr), tail))
+        work += [('tests', t) for t in tr]
+        for path, status, ts in gentrace.record_scripts(sorted(glob.glob(os.path.join(os.environ.get('ROCKIT_REPO', '/repo'), 'examples', '*.py')))):
+            work += [('examples', t) for t in ts]
+        rep.notes.append('workloads: %d driver, %d repository-test and %d example traces' % (n, len(tr), len(work) - n - len(tr)))
+    for i, (src, t) in enumerate(work): t['id'] = t['id'] if src == 'driver' else '%s#%d' % (t['id'], i)
+    chunks = [work[i:i + 200] for i in range(0, len(work), 200)]
+    from concurrent.futures import ThreadPoolExecutor
+    with ThreadPoolExecutor(8) as ex:
+        results = list(ex.map(lambda ch: gentrace.validate([t for _, t in ch]), chunks))
+    import re
+    for (verdicts, st), chunk in zip(results, chunks):
+        st['module'] = 'TraceCache'; rep.add_tlc(st)
+        for src, t in chunk:
+            v = verdicts.get(t['id'], 'missing')
+            rep.evaluations += 1
+            rep.sigs.add(src + ':' + ';'.join(e['op'] + e['out'][0] for e in t['events']))
+            if len(rep.samples) < 6 and src != 'driver': rep.samples.append({'workload': t.get('test'), 'ops': [e['op'] for e in t['events']][:12]})
+            if v == '{}':
+                rep.count('C13.g:' + src, 'ok'); continue
+            rep.count('C13.g:' + src, 'mismatch')
+            clauses = sorted(set(re.findall(r'"(C13\.[a-z]:[^"]+)"', v))) or ['C13.g']
+            rec = {'trace': t, 'source': src, 'sc': {'source': src, 'id': t['id'], 'test': t.get('test')}}
+            for cl in clauses[:2]:
+                k = engine.match_known(rep.pid, cl, v, rec, known)
+                if k: rep.known_hits[k['key']] = rep.known_hits.get(k['key'], 0) + 1
+                else: rep.violations.append((cl.replace('C13.c:', 'C13.g:c:'), 'TLC rejects the recorded trace (%s, %s): %s' % (src, t.get('test'), v[:300]), rec, None))
+
+
 def check_C19(rep, known):
     mc_job(rep, 'ToFunction', 'MC_ToFunction.cfg', workers=8)
     recs, st = tlc.generate('ScenFun', 'ScenFun.cfg', 'C19', rep.tier, rep.seed, parts=1)
@@ -242,6 +287,7 @@ def check_C03(rep, known):
 def check_C13(rep, known):
     life_job(rep, [r'C13\.'], known)
     trace_job(rep, known)
+    gen_job(rep, known)
     # guesses given partly before and partly after a transcription (C10 family, when = split): same start as a fresh OCP
     recs, st = tlc.generate('ScenShoot', 'ScenShoot.cfg', 'C10', rep.tier, rep.seed, parts=16)
     recs = [r for r in recs if r['sc'].get('when') == 'split']
